@@ -627,3 +627,33 @@ async fn remote<P: Protocol>(
         router_tx.send((connection_id, message)).ok();
     }
 }
+
+/// Verification hook (H4): run the real per-connection task `remote()` (MQTT handshake,
+/// authentication, link start, disconnect and will handling) over an in-memory stream. Add-only.
+#[cfg(rumqtt_verif)]
+pub mod verif_hooks {
+    use super::*;
+
+    /// the broker's `will_handlers` map (its value type is private)
+    #[derive(Clone, Default)]
+    pub struct WillHandlers(Arc<Mutex<HashMap<String, Sender<AwaitingWill>>>>);
+
+    impl WillHandlers {
+        pub fn len(&self) -> usize {
+            self.0.lock().unwrap().len()
+        }
+        pub fn is_empty(&self) -> bool {
+            self.len() == 0
+        }
+    }
+
+    pub async fn verif_remote<P: Protocol>(
+        config: Arc<ConnectionSettings>,
+        router_tx: Sender<(ConnectionId, Event)>,
+        stream: Box<dyn N>,
+        protocol: P,
+        wills: WillHandlers,
+    ) {
+        remote(config, None, router_tx, stream, protocol, wills.0).await
+    }
+}
